@@ -169,11 +169,13 @@ def strategies():
     from hypothesis import strategies as st
 
     adv_text = st.lists(st.sampled_from(ADV_CHARS + EXTRA_CHARS), max_size=6).map(''.join)
-    words = st.lists(st.sampled_from(['a', 'bb', 'ccc', "it's", 'say "hi"', 'x\\y', 'été', 'word', 'lorem', 'ipsum-dolor', 'a/b/c']),
+    words = st.lists(st.sampled_from(['a', 'bb', 'ccc', "it's", 'say "hi"', 'x\\y', 'été', 'word', 'lorem', 'ipsum-dolor', 'a/b/c',
+                                      "rock'n'roll", "'tis", 'x"y"z', "C:\\dir\\'", 'q\\"']),
                      min_size=1, max_size=30).map(' '.join)
+    quoty = st.lists(st.sampled_from(["'", "'", '"', '\\', "\\'", '\\"', 'a', ' ', 'word ']), min_size=1, max_size=40).map(''.join)
     unbreakable = st.integers(5, 120).map(lambda n: 'x' * n)
     any_text = st.text(max_size=40)
-    text = st.one_of(adv_text, adv_text, words, unbreakable, any_text, st.just(''))
+    text = st.one_of(adv_text, adv_text, words, unbreakable, any_text, st.just(''), quoty)
 
     def to_bytes_recipe(s):
         return ['bytes', s.encode('utf-8', 'surrogatepass').hex()]
